@@ -1030,6 +1030,17 @@ void Handler::checkReadEnvVarArgs( const char* arg0)
 void Handler::readArgumentFile( const string& pathFilename, bool reportMissing)
 {
 
+   // an argument file may include other argument files: a file that includes
+   // itself, directly or indirectly, would otherwise be read again and again
+   // until the process runs out of file descriptors or stack
+   static constexpr int  MaxArgFileDepth = 20;
+
+   if (mArgFileDepth >= MaxArgFileDepth)
+      throw runtime_error( "argument files nested too deeply, file '"
+         + pathFilename + "' (does an argument file include itself?)");
+
+   const common::ScopedValue< int>  depth( mArgFileDepth, mArgFileDepth + 1);
+
    std::ifstream  progArgs( pathFilename.c_str());
 
 
